@@ -187,9 +187,19 @@ def main(ctx):
         'C02 Coq model: WF (charge rule, no duplicate rows, truthful sortedness claim) proved closed under transpose, conj, scalar multiplication, addition, outer and the '
         'block pairing of tensordot; for all other operations the invariant is checked by the oracle only',
         'C02 c02x streams: a call on valid arguments that raises counts as a failure, except FlatLinearOperator in the situations of the registered defects F16.3 '
-        '(qconj=-1 leg, non-compact, sector != -sector) and F16.4 (from_NpcArray(labelled matrix, charge_sector=None).matvec) of property C16',
-        'C02 c02x streams not generated: charge_sector=None on legs that are not sorted and bunched (flat_to_npc raises in its own sanity check), compact mode for a sector '
-        'without states, svd(full_matrices=True) / speigs / orthogonal_columns (property C05, F05.1/F05.2/F05.6), add_charge(qtotal=None), from_qdict without charges or '
+        '(qconj=-1 leg, non-compact, sector != -sector) and F16.4 (from_NpcArray(labelled matrix, charge_sector=None).matvec) of property C16, and '
+        'svd(full_matrices=True) refusing (ValueError) total charges of the factors that the full form cannot carry',
+        'C02 speaks about tensors / legs that are RETURNED or MODIFIED IN PLACE; the following calls raise on every input of the named class at every optimization level, '
+        'return nothing and leave their operands untouched (defects of tenpy outside the statement of C02), and are therefore not generated: '
+        'Array.add_leg(leg, i, axis=rank) (IndexError; axis <= rank-1 and negative axes are generated), '
+        'Array.add_charge(qtotal=None) on a tensor with at least one charge (IndexError in the detection of the total charge), '
+        'LegCharge.from_qdict for a ChargeInfo without charges (ValueError in a reshape), '
+        'LegCharge.perm_qind_from_perm_flat (IndexError already for the identity; returns a permutation, no tensor / leg: counted as an observation for C01 only); '
+        'FlatLinearOperator.possible_charge_sectors lists raw leg charges (not multiplied by qconj): a plain ndarray attribute, no tensor / leg (see F16.3 of C16)',
+        'C02 c02x streams: charge_sector=None on legs that are not sorted and bunched IS generated (flat_to_npc: when it raises in its own sanity check the tensor it '
+        'built is fetched with tenpy.tools.optimization.temporary_level(skip_arg_checks), the level at which it is returned, and judged by the invariant oracle); '
+        'svd(full_matrices=True) IS generated for the consistency of the factors (exactness / unitarity: C05); float32 / complex64 tensors in 30% of the linalg cases',
+        'C02 c02x streams not generated: compact mode for a sector without states, speigs / orthogonal_columns (property C05, F05.6), from_qdict '
         'with empty blocks, BoostNpcLinearOperator.to_matrix, legs with empty blocks in the operator streams (tensordot over empty blocks: C01)',
     ]
     return ctx.finish(RULE, 'theorems of coq/Props/C02.v (WF closed under the modelled operations, documented qtotal); boolean WF of the model evaluated on the storage produced by '
